@@ -114,7 +114,7 @@ func cmdVerify(args []string) {
 				nok++
 			}
 		}
-		fmt.Printf("%-60s %d/%d\n", u.Key, ok, len(u.VC.obls))
+		fmt.Printf("%-60s %d/%d reach=%s\n", u.Key, ok, len(u.VC.obls), u.Reach)
 		for _, o := range u.VC.obls {
 			if o.Status != "unsat" {
 				fmt.Printf("   FAIL %-50s %-8s %s %.1fs  %s:%d  %s\n", o.Name, o.Status, o.Solver, o.Seconds, o.Pos.Filename, o.Pos.Line, o.Desc)
